@@ -2,7 +2,10 @@
 
 package pfcp
 
-import "net"
+import (
+	"net"
+	"time"
+)
 
 // Environment, engine side (intercepted by gosymx).
 
@@ -14,6 +17,7 @@ func zzExpectExit()
 func zzTimersActive() int
 func zzTimersCreated() int
 func zzGoroutines() int
+func zzFireTimer(t *time.Timer) bool
 
 func zzConn() *net.UDPConn { return &net.UDPConn{} }
 
